@@ -6,6 +6,7 @@ import MosVerif.Lemmas.TranslatedC08
 import MosVerif.Lemmas.Ttl
 import MosVerif.Lemmas.TtlHist
 import MosVerif.Lemmas.TtlSpec
+import MosVerif.Lemmas.RedisCache
 import MosVerif.Generated.Facts
 namespace MosVerif.C08
 open MosVerif.Ttl
@@ -33,6 +34,20 @@ theorem lifetime_bounds (m : Msg) (cfgMax : Int) (h1 : -9223372037 < cfgMax) (h2
         storeTtl m (initMaxTtl cfgMax) ≤ (getMinimalTTL m).1.toNat * second) ∧
     ((getMinimalTTL m).2 = true → (getMinimalTTL m).1.toNat = 0 → storeTtl m (initMaxTtl cfgMax) = second) :=
   lifetimeBounds m cfgMax h1 h2
+
+/-- whatever is configured, no lifetime exceeds ten years (`maxCacheTtlLimit`, so that otter's uint32 second clock
+    cannot wrap): lifetime = min(policy ttl, min(configured maximum, 10 y)) -/
+theorem lifetime_le_ten_years (m : Msg) (cfgMax : Int) (h1 : -9223372037 < cfgMax) (h2 : cfgMax < 9223372037) :
+    storeTtl m (initMaxTtl cfgMax) ≤ 315360000 * second ∧ initMaxTtl cfgMax ≤ 315360000 * second ∧
+    (0 < cfgMax → cfgMax ≤ 315360000 → initMaxTtl cfgMax = cfgMax * second) := by
+  obtain ⟨hc1, hc2, -, -, -, hc6⟩ := initMaxTtl_bounds cfgMax h1 h2
+  have := (lifetimeBounds m cfgMax h1 h2).2.1
+  refine ⟨by omega, hc2, ?_⟩
+  intro hp hle
+  rcases hc6 hp with h | h
+  · exact h
+  · have := (initMaxTtl_bounds cfgMax h1 h2).2.2.2.2.1 hp
+    unfold second at *; omega
 
 /-- the floor and the cap alone: for any positive cap the result is positive and at most the cap -/
 theorem storeTtl_range (m : Msg) (cap : Int) (hc : 0 < cap) :
@@ -76,14 +91,25 @@ theorem tc_and_failures_never_stored :
 
 /-! ### error responses never displace an entry -/
 
-/-- ★ An error response (rcode ≠ 0) is stored set-if-absent: if the key has a node — in particular a live
-    positive entry — `Store` changes nothing at all, so every later lookup sees exactly what it saw before. -/
+/-- ★ An error response (rcode ≠ 0) is stored set-if-absent: if the key has a live node (one that is not expired
+    on the cache clock when the Store runs) — in particular a live positive entry — `Store` changes nothing at all,
+    so every later lookup sees exactly what it saw before. (An expired leftover does not count: MemoryCache.Store
+    removes it and stores the error response.) -/
 theorem negative_never_displaces_live_positive (clock : Nat → Nat) (cfg : Cfg) (mem : Mem) (k : Nat) (m : Msg)
-    (now delay id : Nat) (e : Entry) (hneg : m.rcode ≠ 0) (hlive : mem k = some e) :
+    (now delay id : Nat) (e : Entry) (hneg : m.rcode ≠ 0) (hpres : mem k = some e)
+    (hlive : clock (now + delay) < e.expTick) :
     cacheStore clock cfg mem k (some m) now delay id = mem ∧
     ∀ t, cacheGet clock (cacheStore clock cfg mem k (some m) now delay id) k t = cacheGet clock mem k t := by
-  have h := cacheStore_neg_present clock cfg mem k m now delay id e hneg hlive
+  have h := cacheStore_neg_present clock cfg mem k m now delay id e hneg hpres hlive
   exact ⟨h, fun t => by rw [h]⟩
+
+/-- an expired leftover is replaced (otter keeps expired nodes in its map; they must not block error responses) -/
+example :
+    let clock : Nat → Nat := fun t => t / G
+    let cfg : Cfg := ⟨true, initMaxTtl 0⟩
+    let mem1 := cacheStore clock cfg Mem.empty 7 (some ⟨0, false, [⟨1, 1⟩], [], []⟩) 0 0 1
+    let mem2 := cacheStore clock cfg mem1 7 (some ⟨3, false, [], [], []⟩) (2 * G) 0 2
+    ((cacheGet clock mem2 7 (3 * G)).map (fun p => p.2.id)) = some 2 := by decide
 
 /-- by contrast a positive response (rcode 0) is stored with Set and replaces whatever is there -/
 theorem positive_replaces (clock : Nat → Nat) (cfg : Cfg) (mem : Mem) (k : Nat) (m : Msg) (now delay id : Nat)
@@ -193,6 +219,46 @@ example :
     ((cacheGet clock mem 7 2950000000).map (fun p => p.1.ans)) = some [⟨1, 1⟩] ∧
     (cacheGet clock mem 7 3000000000).isNone = true := by decide
 
+/-! ### expiry with the redis backend (and both backends) -/
+
+/-- ★ Both backends. For every history — Store calls, lookups, client queries, evictions in either backend, and
+    redis applying each queued SET at ANY later instant or never (`apply t`, `drop`: the proxy's own queue, a slow
+    or blocked server) — every configuration (memory only, redis only, both), every maximum that is a whole number
+    of seconds, and every cache clock within one tick of real time: whatever is served at time `t` comes from an
+    entry/value whose message is not truncated, whose carried `expire − stored` is exactly the policy's lifetime
+    of that message (bounded by `lifetime_bounds`), with `t < stored + lifetime + 2 s` (from redis even
+    `t < expire`: the carried expire time decides, not redis' own ttl), and it is the stored message aged by the
+    whole seconds since `stored` — for a redis value the fetch instant cut to a whole Unix second, so it never
+    looks younger than it is. -/
+theorem not_served_after_both (clock : Nat → Nat) (off : Nat) (cfg : RedisCache.RCfg) (hcfg : RedisCache.RCfgOK cfg)
+    (hclk : ClockOK clock off) (steps : List RedisCache.RStep) (hp : ∀ s ∈ steps, s.prompt) (id : Nat) :
+    RedisCache.RAllObsOK cfg.maximumTtl steps (RedisCache.rRunFrom clock cfg RedisCache.RState.empty id steps).2 :=
+  (RedisCache.rRun_sound clock off cfg hcfg hclk steps RedisCache.RState.empty id hp (RedisCache.rinv_empty cfg off)).2
+
+/-- the configurations the router can have satisfy the hypothesis on the maximum -/
+theorem redis_cfg_ok (mem red : Bool) (cfgMax : Int) (h1 : -9223372037 < cfgMax) (h2 : cfgMax < 9223372037) :
+    RedisCache.RCfgOK ⟨mem, red, initMaxTtl cfgMax⟩ := RedisCache.rcfgOK_init mem red cfgMax h1 h2
+
+/-- a hit of the redis path in one step: never at or after the expire time the value carries, however long redis
+    itself keeps the key -/
+theorem redis_hit_before_expire (clock : Nat → Nat) (cfg : RedisCache.RCfg) (st : RedisCache.RState) (k now : Nat)
+    (v : RedisCache.RVal) (hmiss : cfg.hasMem = false) (hv : st.redis k = some v) (hlate : v.expire ≤ now) :
+    (RedisCache.rGet clock cfg st k now).2 = none := by
+  have : ¬ (now < v.gone ∧ now < v.expire) := by omega
+  cases hr : cfg.hasRedis <;> simp [RedisCache.rGet, hmiss, hr, hv, this]
+
+/-- non-vacuity (audit hunt-D finding 7): ttl 1 stored at 0.3 s; the SET (PX 999) is applied 2.6 s late, so redis
+    has the key from 2.9 s to 3.9 s; a lookup at 3.6 s misses, one at 0.9 s (value applied at once) hits. -/
+example :
+    let cfg : RedisCache.RCfg := ⟨false, true, initMaxTtl 0⟩
+    let clock : Nat → Nat := fun t => t / G
+    let st1 := RedisCache.rStore clock cfg RedisCache.RState.empty 7 (some ⟨0, false, [⟨1, 1⟩], [], []⟩) 300000000 0 1
+    let late := RedisCache.rApply st1 2900000000
+    let prompt := RedisCache.rApply st1 300000000
+    (RedisCache.rGet clock cfg late 7 3600000000).2.isNone = true ∧
+    ((RedisCache.rGet clock cfg prompt 7 900000000).2.map (fun p => p.1.ans)) = some [⟨1, 1⟩] ∧
+    (late.redis 7).map (fun v => (v.expire, v.gone)) = some (1000000000, 3900000000) := by decide
+
 /-! ### the executable specification accepts the model -/
 
 /-- ★ (ttlpolicy/store) the model's "Store, then Get at once" outcome satisfies the executable specification,
@@ -250,15 +316,16 @@ theorem minttl_model_meets_spec (m : Msg) : specMin m (getMinimalTTL m) = true :
 example : specMin ⟨0, false, [⟨1, 7⟩, ⟨41, 2⟩], [], [⟨1, 9⟩]⟩ (2, true) = false := by decide
 
 /-- ★ (ttlpolicy/hist) For every history of harness events (Store, Store(nil), lookup, client query with any
-    upstream outcome; any keys, messages, planned times in order) and every configured maximum: the
+    upstream outcome; any keys, messages, planned times in order, below 31 years) and every configured maximum: the
     observations of the model satisfy the executable specification written from the property text — provenance
     (only fetched, non-truncated responses are ever served), lifetime bound, "not served after lifetime + 2 s",
     aged TTLs, and "an error response never displaces a live positive entry". -/
 theorem hist_model_meets_spec (cfgMax : Int) (h1 : -9223372037 < cfgMax) (h2 : cfgMax < 9223372037)
-    (evs : List Ev) (hsorted : sortedEvs evs = true) (hkinds : ∀ e ∈ evs, e.kind ≤ 3) :
+    (evs : List Ev) (hsorted : sortedEvs evs = true) (hshort : shortEvs evs = true)
+    (hkinds : ∀ e ∈ evs, e.kind ≤ 3) :
     specHist cfgMax evs (modelHist cfgMax evs) = true := by
   unfold specHist modelHist
-  exact run_spec cfgMax h1 h2 evs hsorted hkinds evs 0 Mem.empty (hinv_start cfgMax evs) (by intro i; simp)
+  exact run_spec cfgMax h1 h2 evs hsorted hshort hkinds evs 0 Mem.empty (hinv_start cfgMax evs) (by intro i; simp)
 
 /-- the specification of histories is not vacuous: it rejects an entry served 3 s after a 1 s lifetime, an
     NXDOMAIN that displaced a live positive entry, a cached answer to a failed exchange, an un-aged TTL -/
@@ -313,8 +380,8 @@ theorem pins_3 :
 
 /-- (continued) -/
 theorem pins_4 :
-    Facts.ttl_memSetIfAbsent = "c.backend.SetIfAbsent(ks, e, ttl)" ∧
-    Facts.ttl_memSet = "c.backend.Set(ks, e, ttl)" ∧
+    Facts.ttl_memSetIfAbsent = "ok := c.backend.SetIfAbsent(ks, e, ttl)" ∧
+    Facts.ttl_memSet = "if !c.backend.Set(ks, e, ttl) { releaseEntry(e) }" ∧
     Facts.ttl_memStoredField = "e.storedTime = storedTime" ∧
     Facts.ttl_memExpireField = "e.expireTime = expireTime" ∧
     Facts.ttl_minInit = "minTTL := ^uint32(0)" ∧
@@ -343,7 +410,42 @@ theorem pins_6 :
     Facts.ttl_prefetchErrReturn = "if err != nil { r.logger.Warn().Object(\"query\", (*qLogObj)(q)).Str(\"upstream\", u.tag).Err(err). Msg(\"failed to prefetch\") return }" := by
   refine ⟨?_, ?_, ?_, ?_⟩ <;> rfl
 
+/-- (continued) the repairs of the audit: a refused set-if-absent is retried over an expired leftover, entries are
+    not recycled, the maximum is limited to ten years -/
+theorem pins_7 :
+    Facts.ttl_memRetryGuard = "!ok" ∧
+    Facts.ttl_memRetry = "if _, alive := c.backend.Get(ks); !alive { c.backend.Delete(ks) ok = c.backend.SetIfAbsent(ks, e, ttl) }" ∧
+    Facts.ttl_memNewEntry = "{ return new(cacheEntry) }" ∧
+    Facts.ttl_memReleasePool = 0 ∧
+    Facts.ttl_maxLimit = 315360000000000000 ∧
+    Facts.ttl_maxLimitCond = "c.maximumTtl > maxCacheTtlLimit" ∧
+    Facts.ttl_maxLimitAssign = "c.maximumTtl = maxCacheTtlLimit" := by
+  refine ⟨?_, ?_, ?_, ?_, ?_, ?_, ?_⟩ <;> rfl
+
+/-- (continued) the redis path and forward's RemoveEDNS0 -/
+theorem pins_8 :
+    Facts.ttl_redisHitCond = "v != nil && time.Now().Before(expireTime)" ∧
+    Facts.ttl_redisGetCall = "storedTime, expireTime, v = c.redis.Get(ctx, key)" ∧
+    Facts.ttl_redisFill = "c.memory.Store(key, storedTime, expireTime, v, true)" ∧
+    Facts.ttl_redisSubtract = "dnsutils.SubtractTTL(m, uint32(time.Since(storedTime).Seconds()))" ∧
+    Facts.ttl_redisStoreCall = "c.redis.AsyncStore(k, storedTime, expireTime, v, negativeResp)" ∧
+    Facts.ttl_redisTtlMs = "ttlMs := time.Until(expireTime).Milliseconds()" ∧
+    Facts.ttl_redisTtlMin = "ttlMs <= 10" := by
+  refine ⟨?_, ?_, ?_, ?_, ?_, ?_, ?_⟩ <;> rfl
+
+/-- (continued) -/
+theorem pins_9 :
+    Facts.ttl_redisValStored = "binary.BigEndian.PutUint64(b, uint64(storedTime.Unix()))" ∧
+    Facts.ttl_redisValExpire = "binary.BigEndian.PutUint64(b[8:], uint64(expireTime.Unix()))" ∧
+    Facts.ttl_redisGetStored = "storedTime = time.Unix(int64(binary.BigEndian.Uint64(b[:8])), 0)" ∧
+    Facts.ttl_redisGetExpire = "expireTime = time.Unix(int64(binary.BigEndian.Uint64(b[8:16])), 0)" ∧
+    Facts.ttl_removeOptBody = "{ n := 0 for _, r := range rs { if r.Hdr().Type == TypeOPT { ReleaseResource(r) continue } rs[n] = r n++ } for i := n; i < len(rs); i++ { rs[i] = nil } return rs[:n] }" ∧
+    Facts.ttl_removeEDNS0Body = "{ m.Answers = removeOpt(m.Answers) m.Authorities = removeOpt(m.Authorities) m.Additionals = removeOpt(m.Additionals) }" ∧
+    Facts.ttl_forwardRemove = "dnsmsg.RemoveEDNS0(resp)" := by
+  refine ⟨?_, ?_, ?_, ?_, ?_, ?_, ?_⟩ <;> rfl
+
 /-- the model's constants are the pinned ones -/
-theorem pins_model : (Facts.ttl_defaultMaxCacheTtl : Int) = defaultMaxCacheTtl := by decide
+theorem pins_model : (Facts.ttl_defaultMaxCacheTtl : Int) = defaultMaxCacheTtl ∧
+    (Facts.ttl_maxLimit : Int) = maxCacheTtlLimit := by decide
 
 end MosVerif.C08
